@@ -1060,6 +1060,81 @@ fn c11(cx: &mut Ctx) {
 
 // ------------------------------------------------------------------ C12
 
+/// SAN texts built from the PLACEMENT alone (never from the library's move list): every pawn step, double step,
+/// capture, en-passant-shaped capture and promotion, every king step, and the ray / jump destinations of the other men
+/// up to and including the first blocker.  The driver's oracle decides by the rules what each text denotes (an
+/// admissible spelling of exactly one legal move must be parsed to that move), so a move the library fails to
+/// generate is still asked for.
+fn san_candidates(b: &Board) -> Vec<(String, bool)> {
+    let d = BD::of_board(b);
+    let me = d.stm;
+    let mut out: Vec<(String, bool)> = Vec::new(); // (text, special)
+    let name = |i: usize| -> String { format!("{}{}", (b'a' + (i & 7) as u8) as char, (b'1' + (i >> 3) as u8) as char) };
+    let filech = |i: usize| -> char { (b'a' + (i & 7) as u8) as char };
+    let on = |r: i32, f: i32| -> Option<usize> { if r >= 0 && r < 8 && f >= 0 && f < 8 { Some((r * 8 + f) as usize) } else { None } };
+    for s in 0..64usize {
+        let (p, c) = match d.sq[s] { Some(x) => x, None => continue };
+        if c != me { continue; }
+        let (r, f) = ((s >> 3) as i32, (s & 7) as i32);
+        match p {
+            Piece::Pawn => {
+                let fw: i32 = if me == Color::White { 1 } else { -1 };
+                let last = if me == Color::White { 7 } else { 0 };
+                let start = if me == Color::White { 1 } else { 6 };
+                let mut dests: Vec<(usize, bool)> = Vec::new(); // (dest, capture-shaped)
+                if let Some(t) = on(r + fw, f) { if d.sq[t].is_none() { dests.push((t, false)); } }
+                if r == start { if let (Some(m), Some(t)) = (on(r + fw, f), on(r + 2 * fw, f)) { if d.sq[m].is_none() && d.sq[t].is_none() { dests.push((t, false)); } } }
+                for df in [-1i32, 1].iter() {
+                    if let Some(t) = on(r + fw, f + df) {
+                        match d.sq[t] { Some((_, oc)) if oc != me => dests.push((t, true)), None => dests.push((t, true)), _ => {} }
+                    }
+                }
+                for (t, cap) in dests {
+                    let base = if cap { format!("{}x{}", filech(s), name(t)) } else { name(t) };
+                    let promos: Vec<&str> = if (t >> 3) as i32 == last { vec!["Q", "R", "B", "N"] } else { vec![""] };
+                    for q in promos {
+                        out.push((format!("{}{}", base, q), true));
+                        if cap && d.sq[t].is_none() { out.push((format!("{}{} e.p.", base, q), true)); }
+                        out.push((format!("{}{}+", base, q), true));
+                    }
+                }
+            }
+            _ => {
+                let letter = match p { Piece::Knight => 'N', Piece::Bishop => 'B', Piece::Rook => 'R', Piece::Queen => 'Q', _ => 'K' };
+                let mut dests: Vec<usize> = Vec::new();
+                let steps: &[(i32, i32)] = match p {
+                    Piece::Knight => &[(1, 2), (2, 1), (-1, 2), (-2, 1), (1, -2), (2, -1), (-1, -2), (-2, -1)],
+                    Piece::King => &[(0, 1), (1, 0), (0, -1), (-1, 0), (1, 1), (1, -1), (-1, 1), (-1, -1)],
+                    Piece::Bishop => &[(1, 1), (1, -1), (-1, 1), (-1, -1)],
+                    Piece::Rook => &[(0, 1), (1, 0), (0, -1), (-1, 0)],
+                    _ => &[(0, 1), (1, 0), (0, -1), (-1, 0), (1, 1), (1, -1), (-1, 1), (-1, -1)],
+                };
+                let slider = p == Piece::Bishop || p == Piece::Rook || p == Piece::Queen;
+                for (dr, df) in steps.iter() {
+                    let mut k = 1;
+                    loop {
+                        match on(r + dr * k, f + df * k) {
+                            None => break,
+                            Some(t) => {
+                                match d.sq[t] { Some((_, oc)) if oc == me => break, Some(_) => { dests.push(t); break; } None => dests.push(t) }
+                            }
+                        }
+                        if !slider { break; }
+                        k += 1;
+                    }
+                }
+                for t in dests {
+                    let x = if d.sq[t].is_some() { "x" } else { "" };
+                    out.push((format!("{}{}{}", letter, x, name(t)), p == Piece::King));
+                    out.push((format!("{}{}{}{}", letter, filech(s), x, name(t)), false));
+                    out.push((format!("{}{}{}{}", letter, (b'1' + (s >> 3) as u8) as char, x, name(t)), false));
+                }
+            }
+        }
+    }
+    out
+}
+
 fn c12(cx: &mut Ctx) {
     let npos = cx.n(C12_POSITIONS);
     let mut goods: Vec<(Board, String)> = Vec::new();
@@ -1093,6 +1168,22 @@ fn c12(cx: &mut Ctx) {
             cx.sink.note_result(&line);
             cx.sink.count("must_reject_unreachable");
             cx.sink.emit(line);
+        }
+        // texts from the placement alone (the oracle decides what they denote): all pawn and king texts, a sample of the others
+        {
+            let mut cands = san_candidates(b);
+            cx.rng.shuffle(&mut cands);
+            let mut plain = 0usize;
+            for (t, special) in cands.into_iter() {
+                if !special {
+                    if plain >= 10 { continue; }
+                    plain += 1;
+                }
+                let line = ops::san(b, &t, "?");
+                cx.sink.note_result(&line);
+                cx.sink.count("placement_derived_texts");
+                cx.sink.emit(line);
+            }
         }
         // castling text in EVERY sampled position, whether or not castling is legal there (the
         // driver's oracle decides by the rules: it denotes the castling move or nothing)
